@@ -1,0 +1,17 @@
+package misc
+
+import (
+	"fmt"
+	"strconv"
+)
+
+// RegoFloat returns f as a decimal literal that denotes exactly f. Arguments have always been written with six decimals
+// (50.45 -> 50.450000); that spelling is kept whenever it is exact, and all the digits are written when it is not, so an
+// argument such as 4.0000001 is no longer compared as 4.000000.
+func RegoFloat(f float64) string {
+	s := fmt.Sprintf("%f", f)
+	if back, err := strconv.ParseFloat(s, 64); err == nil && back == f {
+		return s
+	}
+	return strconv.FormatFloat(f, 'f', -1, 64)
+}
